@@ -25,6 +25,7 @@ REQUIRED_THEOREMS = [
     "TapkeeVerif.Knn.CoverQuery.batchCreate_leaves",
     "TapkeeVerif.Knn.CoverQuery.batchCreate_wf",
     "TapkeeVerif.Knn.CoverQuery.cover_tree_end_to_end",
+    "TapkeeVerif.Knn.CoverQuery.cover_top_uncovered_drops",
 ]
 METHODS = ["brute", "vptree", "covertree"]
 
@@ -144,9 +145,8 @@ def classify(c, io, mf):
     if method == "covertree" and "bt" in mf:
         # the Lean model of batch_create (run with the scale values the real code computed) against the real tree
         if mf.get("bh") != "ok":
-            return ("broken", "cover-build-hypothesis:%s" % mf.get("bh"), "the values of get_scale / dist_of_scale the real code "
-                    "computed violate a hypothesis of batchCreate_wf (%s: neg = a negative dist_of_scale, top = the largest "
-                    "distance from the first sample exceeds dist_of_scale(get_scale(it)), so batch_create drops samples)" % mf.get("bh"))
+            return ("broken", "cover-build-hypothesis:%s" % mf.get("bh"), "the values of dist_of_scale the real code computed "
+                    "violate the hypothesis of batchCreate_wf (%s: a negative dist_of_scale)" % mf.get("bh"))
         if mf["bt"] != "ok" or mf.get("bls") != "ok":
             return ("broken", "corr:cover-build", "Lean model of batch_create (batch_insert / split / dist_split / max_set / "
                     "set_leaf_scale, scale functions as computed by the real code) builds a tree different from the real one "
@@ -406,7 +406,7 @@ def correspond(ctx):
         default_vantage_leg(ctx, dv_binary, dvv)
     # boundary of the cover tree's scale functions: the largest distance from the first sample is one of the doubles
     # next to a power of 1.3, where get_scale = ceil(log d / log 1.3) and dist_of_scale = pow(1.3, s) disagree by
-    # rounding — hypothesis H2 (topCovered) of batchCreate_wf is about exactly these values
+    # rounding (F-COVER-TOP: the farthest samples were dropped from the tree)
     judge(ctx, binary, scale_boundary_cases(r.fork(), 60 if quick else 1500), "cover-scale-boundary")
     # exhaustive k for small N
     small = []
